@@ -988,7 +988,7 @@ fn main() {
         }
     }
     let next = std::sync::atomic::AtomicUsize::new(0);
-    let deadline_s = ctx.pick(90.0, 560.0);
+    let deadline_s = ctx.pick(90.0, 560.0) * Ctx::wall_scale();
     std::thread::scope(|s| {
         for _ in 0..threads {
             let ctx = &ctx;
